@@ -124,7 +124,8 @@ class Engine(EngineBase):
             else:
                 ops.append([k, t, h])
         ops += [["exit"]] * depth
-        return {"knobs": knobs, "kind": kind, "ntargets": ntargets, "nh": nh, "ops": ops}
+        return {"knobs": knobs, "kind": kind, "ntargets": ntargets, "nh": nh, "ops": ops,
+                "path_spellings": rng.random() < 0.4}
 
     def shrink(self, scenario):
         for c in generic_shrink(scenario, "ops"):
@@ -191,8 +192,12 @@ class World:
         self.handles = []
         for t in range(sc["ntargets"]):
             hs = []
-            for _ in range(sc["nh"][t]):
-                p = self.signac.Project(self.pp)
+            for hi in range(sc["nh"][t]):
+                # independent handles may be opened through differently spelled (absolute) paths
+                spelled = [self.pp, os.path.join(self.pp, "workspace", os.pardir),
+                           os.path.join(os.path.dirname(self.pp), ".", os.path.basename(self.pp)),
+                           self.pp.replace("/p", "//p", 1)][(hi + t) % 4 if sc.get("path_spellings") else 0]
+                p = self.signac.Project(spelled)
                 hs.append(p if t == sc["ntargets"] - 1 else p.open_job(self.sps[t]))
             self.handles.append(hs)
 
@@ -213,7 +218,12 @@ class World:
         self.ctx.append(c)
 
     def exit(self):
-        self.ctx.pop().__exit__(None, None, None)
+        try:
+            self.ctx.pop().__exit__(None, None, None)
+        except Exception as e:  # noqa: BLE001 - leaving a buffered block must flush, not fail
+            raise Mismatch("C05", "C05:buffered:exit-raised",
+                           f"world {self.mode}: leaving signac.buffered() raised {type(e).__name__}: {str(e)[:200]}",
+                           f"C05:buffered:exit-raised:{type(e).__name__}")
 
 
 class Run:
